@@ -18,7 +18,7 @@ UNITS2 = {
     'PackSeq': (os.path.join(vlib.REPO, 'librfn/pack.c'),
                 ['rf_pack_init', 'rf_pack_consumed', 'rf_pack_remaining', 'rf_pack_bytes', 'rf_pack_s16le', 'rf_pack_u16be', 'rf_pack_u16le',
                  'rf_pack_s32le', 'rf_pack_u32le', 'rf_unpack_bytes', 'rf_unpack_char', 'rf_unpack_s8', 'rf_unpack_u8', 'rf_unpack_u16le',
-                 'rf_unpack_u32le'], 2),
+                 'rf_unpack_u32le'], 8),
     'RingSeq': (os.path.join(vlib.REPO, 'librfn/ringbuf.c'), ['ringbuf_init', 'ringbuf_get', 'ringbuf_empty', 'ringbuf_put'], 2),
     # C16: helpers are inlined, loops (a harmless rewrite may count nibbles or bits in one) unrolled 32 times
     'BitopsSeq': (os.path.join(vlib.REPO, 'librfn/bitops.c'), ['bitcnt', 'clz', 'ctz', 'ilog2'], 32),
